@@ -115,13 +115,18 @@ pub struct ConnWorld {
 
 impl ConnWorld {
     pub fn new(shards: usize) -> Self {
+        Self::with_pool(shards, 4)
+    }
+
+    /// `pool_buffers` = number of buffers in the pool all connections of this world share
+    pub fn with_pool(shards: usize, pool_buffers: usize) -> Self {
         let state = ShardedActorState::with_shards(shards);
         let mut sched = Sched::new();
         sched.adopt_captured();
         ConnWorld {
             state,
             sched,
-            pool: Arc::new(BufferPoolAsync::new(4, 8192)),
+            pool: Arc::new(BufferPoolAsync::new(pool_buffers, 8192)),
             acl: Arc::new(RwLock::new(AclManager::new())),
         }
     }
